@@ -631,6 +631,96 @@ theorem transformDependsOn_idem (v v' : Val) (h : transformDependsOn v = .ok v')
     · cases h
   | _ => simp [transformDependsOn] at h
 
+theorem canonSvcAttrs_idem : ∀ (s s' : List (String × Val)), canonSvcAttrs s = .ok s' → canonSvcAttrs s' = .ok s'
+  | [], s', h => by simp only [canonSvcAttrs, Out.ok.injEq] at h; subst h; rfl
+  | (k, v) :: r, s', h => by
+    simp only [canonSvcAttrs] at h
+    by_cases h1 : k = "depends_on"
+    · simp only [h1, if_true] at h
+      cases hv : transformDependsOn v with
+      | ok w =>
+        simp only [hv] at h
+        cases hr : canonSvcAttrs r with
+        | ok r' =>
+          simp only [hr, Out.ok.injEq] at h
+          subst h
+          simp [canonSvcAttrs, h1, transformDependsOn_idem v w hv, canonSvcAttrs_idem r r' hr]
+        | err e => simp [hr] at h
+        | panic p => simp [hr] at h
+      | err e => simp [hv] at h
+      | panic p => simp [hv] at h
+    · by_cases h2 : k = "env_file"
+      · simp only [h2, show ("env_file" = "depends_on") = False by simp, if_false, if_true] at h
+        cases hv : transformEnvFile v with
+        | ok w =>
+          simp only [hv] at h
+          cases hr : canonSvcAttrs r with
+          | ok r' =>
+            simp only [hr, Out.ok.injEq] at h
+            subst h
+            simp [canonSvcAttrs, h2, transformEnvFile_idem v w hv, canonSvcAttrs_idem r r' hr]
+          | err e => simp [hr] at h
+          | panic p => simp [hr] at h
+        | err e => simp [hv] at h
+        | panic p => simp [hv] at h
+      · simp only [h1, h2, if_false] at h
+        cases hr : canonSvcAttrs r with
+        | ok r' =>
+          simp only [hr, Out.ok.injEq] at h
+          subst h
+          simp [canonSvcAttrs, h1, h2, canonSvcAttrs_idem r r' hr]
+        | err e => simp [hr] at h
+        | panic p => simp [hr] at h
+
+theorem canonServices_idem : ∀ (m m' : List (String × Val)), canonServices m = .ok m' → canonServices m' = .ok m'
+  | [], m', h => by simp only [canonServices, Out.ok.injEq] at h; subst h; rfl
+  | (k, v) :: r, m', h => by
+    cases v with
+    | map s =>
+      simp only [canonServices] at h
+      cases hs : canonSvcAttrs s with
+      | ok s2 =>
+        simp only [hs] at h
+        cases hr : canonServices r with
+        | ok r' =>
+          simp only [hr, Out.ok.injEq] at h
+          subst h
+          simp [canonServices, canonSvcAttrs_idem s s2 hs, canonServices_idem r r' hr]
+        | err e => simp [hr] at h
+        | panic p => simp [hr] at h
+      | err e => simp [hs] at h
+      | panic p => simp [hs] at h
+    | _ =>
+      simp only [canonServices] at h
+      cases hr : canonServices r with
+      | ok r' =>
+        simp only [hr, Out.ok.injEq] at h
+        subst h
+        simp [canonServices, canonServices_idem r r' hr]
+      | err e => simp [hr] at h
+      | panic p => simp [hr] at h
+
+/-- **the modelled part of `Canonical` is idempotent**: a model whose `depends_on` / `env_file` are already in long
+form with every default written out is left as it is -/
+theorem canonicalLite_idem (d : KVs) (v' : Val) (h : canonicalLite d = .ok v') :
+    ∃ d', v' = .map d' ∧ canonicalLite d' = .ok (.map d') := by
+  unfold canonicalLite at h
+  cases hl : lookup "services" d with
+  | none => simp only [hl, Out.ok.injEq] at h; subst h; exact ⟨d, rfl, by simp [canonicalLite, hl]⟩
+  | some sv =>
+    cases sv with
+    | map svcs =>
+      simp only [hl] at h
+      cases hc : canonServices svcs with
+      | ok s' =>
+        simp only [hc, Out.ok.injEq] at h
+        subst h
+        refine ⟨_, rfl, ?_⟩
+        simp [canonicalLite, lookup_insert_self, canonServices_idem svcs s' hc, insert_insert]
+      | err e => simp [hc] at h
+      | panic p => simp [hc] at h
+    | _ => simp only [hl, Out.ok.injEq] at h; subst h; exact ⟨d, rfl, by simp [canonicalLite, hl]⟩
+
 /-- the model of Go's `path.Clean` used by the driver is idempotent (C12's `clean_idem`) -/
 theorem pathClean_idempotent (s : String) : pathClean (pathClean s) = pathClean s := by
   simp [pathClean, CV.Paths.clean_idem]
